@@ -111,7 +111,7 @@ def run(ctx):
     r.rule("C06.1", "precedence chain of determineEncoding equals the documented order, confidences and guards", floor=12)
     r.rule("C06.2", "a declared UTF-16 is mapped to UTF-8 and the mapped value reaches its use", floor=3)
     r.rule("C06.3", "restart: seek(0) < store (new, certain) < reset() < raise; _parse catches exactly _ReparseException and re-runs", floor=4)
-    r.rule("C06.4", "charEncoding is stored only by constructors/changeEncoding; changeEncoding is called only while tentative", floor=4)
+    r.rule("C06.4", "charEncoding is stored only by constructors/changeEncoding; changeEncoding is called only while tentative", floor=5)
     r.rule("C06.5", "detection reads of rawStream are followed by a seek on every exit; prescan length is numBytesMeta = 1024", floor=4)
     r.rule("C06.6", "documentEncoding and the decoder read the same charEncoding[0]", floor=2)
 
@@ -274,6 +274,24 @@ def run(ctx):
     if n_calls < 2:
         raise AnalysisError("found %d changeEncoding call sites (expected >= 2)" % n_calls)
 
+    # accepting a declaration makes the encoding certain: every path of changeEncoding that does not leave through the
+    # "label unknown" return or the restart stores (<encoding>, 'certain')
+    ch_cfg = CFG(ch.node)
+
+    def certain_store(n):
+        return n.kind == "stmt" and isinstance(n.ast, ast.Assign) and attr_chain(n.ast.targets[0]) == ["self", "charEncoding"] \
+            and isinstance(n.ast.value, ast.Tuple) and norm(n.ast.value.elts[1]) == "'certain'"
+
+    def unknown_label_return(src, dst, lab):
+        # the early return under `newEncoding is None`
+        return not (src.kind == "test" and norm(src.ast) == "newEncoding is None" and lab is True)
+    par = ch_cfg.reach_forward([ch_cfg.entry], certain_store, unknown_label_return)
+    r.check("C06.4", ch_cfg.exit.id not in par, "declaration-accepted-means-certain", ch.where,
+            "changeEncoding can return after recognising the declared label without making the encoding certain (path %s): a "
+            "second declaration later in the document can then switch the encoding" % (
+                " -> ".join(reversed(ch_cfg.witness(par, ch_cfg.exit)))[:200] if ch_cfg.exit.id in par else ""),
+            detail={"every_accepting_path_stores_certain": ch_cfg.exit.id not in par})
+
     # ---- C06.5
     n_reads = 0
     for q in ("HTMLBinaryInputStream.detectBOM", "HTMLBinaryInputStream.detectEncodingMeta", "HTMLBinaryInputStream.determineEncoding"):
@@ -335,6 +353,8 @@ def mutants():
           "        except _ReparseException:\n            self.mainLoop()", "C06.3"),
         T("change-when-certain", "html5parser.py", '        if self.parser.tokenizer.stream.charEncoding[1] == "tentative":\n            if "charset" in attributes:',
           '        if True:\n            if "charset" in attributes:', "C06.4"),
+        T("same-encoding-not-confirmed", REL, "        if newEncoding == self.charEncoding[0]:\n            self.charEncoding = (self.charEncoding[0], \"certain\")",
+          "        if newEncoding == self.charEncoding[0]:\n            return", "C06.4"),
         T("bom-no-seek", REL, "        else:\n            self.rawStream.seek(0)\n            return None", "        else:\n            return None", "C06.5"),
         T("meta-no-seek", REL, "        parser = EncodingParser(buffer)\n        self.rawStream.seek(0)\n", "        parser = EncodingParser(buffer)\n", "C06.5"),
         T("prescan-512", REL, "        self.numBytesMeta = 1024", "        self.numBytesMeta = 512", "C06.5"),
